@@ -60,7 +60,7 @@ use sux::func::{BuildError, VBuilder, VFunc};
 use sux::traits::bit_field_slice::*;
 use sux::utils::{FromIntoIterator, LineLender, RewindableIoLender, Sig, ToSig};
 
-const BUILD_TIMEOUT_SECS: u64 = 60;
+const BUILD_TIMEOUT_SECS: u64 = 900; // generous: a loaded machine must not turn a slow build into a false alarm
 const PARTS_MAX_N: usize = 5000;
 const SOLVE_MAX_N: usize = 2000;
 
